@@ -222,9 +222,25 @@ def _weave_region(repo, header, lines, start_line, tmpl_name, report):
             nonlocal cursor
             new.extend(elems[cursor:k])
             cursor = k
+        def n_ins(a, b):
+            return sum(1 for k in range(pos[a], pos[b - 1] + 1) if elems[k].kind == "ins")
         for tag, i1, i2, j1, j2 in sm.get_opcodes():
             if tag == "equal":
                 continue
+            if tag == "delete" and n_ins(i1, i2) > 0:
+                # a deletion in a run of similar tokens can be placed in several equivalent ways (`a ; a . f ( ) ; a . g`):
+                # take the placement that keeps the annotations between the surviving tokens (none strictly inside)
+                best = (n_ins(i1, i2), 0)
+                for sgn in (-1, 1):
+                    a_, b_ = i1, i2
+                    while (a_ > 0 and Etxt[a_ - 1] == Etxt[b_ - 1]) if sgn < 0 else (b_ < len(Etxt) and Etxt[a_] == Etxt[b_]):
+                        a_, b_ = a_ + sgn, b_ + sgn
+                        if any(E[k].deleted for k in range(a_, b_)):
+                            break
+                        c = n_ins(a_, b_)
+                        if c < best[0]:
+                            best = (c, a_ - i1)
+                i1, i2 = i1 + best[1], i2 + best[1]
             hunk = {"op": tag, "old": " ".join(Etxt[i1:i2]), "new": " ".join(Rtxt[j1:j2]),
                     "src_line": rtoks[min(j1, len(rtoks) - 1)].line}
             rec["transplanted_hunks"].append(hunk)
